@@ -30,18 +30,6 @@ Definition days_in_month (y m : Z) : Z :=
 
 Definition dval (s : string) : Z := Z.of_N (digits_val s).
 
-Fixpoint str_take (n : nat) (s : string) : string :=
-  match n, s with
-  | S n', String a r => String a (str_take n' r)
-  | _, _ => EmptyString
-  end.
-Fixpoint str_drop (n : nat) (s : string) : string :=
-  match n, s with
-  | S n', String _ r => str_drop n' r
-  | _, _ => s
-  end.
-Definition str_sub (i len : nat) (s : string) : string := str_take len (str_drop i s).
-
 Definition all_digits_len (n : nat) (s : string) : bool :=
   Nat.eqb (String.length s) n && forall_char is_digit s.
 
